@@ -138,8 +138,9 @@ def check_links(tree):
     return problems
 
 
-def fresh_clone(n):
-    """Rebuild a tree bottom-up without copy()/load(): cls() + direct arg assignment. No caches survive."""
+def fresh_clone(n, reverse=False):
+    """Rebuild a tree bottom-up without copy()/load(): cls() + direct arg assignment. No caches survive.
+    reverse=True inserts every node's args in the opposite order (equality must not depend on dict order)."""
     cls = type(n)
     new = cls.__new__(cls)
     try:
@@ -147,11 +148,14 @@ def fresh_clone(n):
     except Exception:
         pass
     new.args = {}
-    for k, v in n.args.items():
+    items = list(n.args.items())
+    if reverse:
+        items.reverse()
+    for k, v in items:
         if _is_expr(v):
-            new.args[k] = fresh_clone(v)
+            new.args[k] = fresh_clone(v, reverse)
         elif type(v) is list:
-            new.args[k] = [fresh_clone(x) if _is_expr(x) else x for x in v]
+            new.args[k] = [fresh_clone(x, reverse) if _is_expr(x) else x for x in v]
         else:
             new.args[k] = v
     new._hash = None
